@@ -36,8 +36,12 @@ def run(mod, tier, seed, replay=None):
             regen_fail = dict(kind="regeneration-failed", error=repr(ex))
 
     # ---- proofs
-    targets = [mod.MODULE] + ([mod.DRIVER] if getattr(mod, "DRIVER", None) else [])
+    targets = [mod.MODULE]
     proofs_ok = core.proof_stage(rep, mod.MODULE, targets, getattr(mod, "THOROUGH_MODULES", ()))
+    if getattr(mod, "DRIVER", None):
+        dok, dout = core.lean_build([mod.DRIVER])   # separately: the model must run even when a proof broke
+        if not dok:
+            rep.notes.append("driver build failed: " + dout[-1500:])
     proof_failure = getattr(rep, "proof_failure", None)
     if regen_fail:
         proofs_ok = False
@@ -55,7 +59,7 @@ def run(mod, tier, seed, replay=None):
         for h in mod.HARNESSES:
             hb, hout = core.build_harness(h["name"], h["src"], h.get("repo_srcs", ()), h.get("flags", ()),
                                           h.get("san", core.SAN), h.get("std", "c++11"), h.get("libs", ()),
-                                          h.get("opt", "-O1"))
+                                          h.get("opt", "-O1"), h.get("extra_deps", ()))
             if hb is None:
                 # the tree no longer compiles with our harness: the tie is broken (fail closed)
                 rep.violation(dict(kind="harness-build-failed", harness=h["name"], output=hout[-6000:],
